@@ -131,7 +131,15 @@ def gen(rng, n):
                 steps.append(dict(op="Copy", args=[h, g]))
                 kinds[h - 1] = kinds[g - 1]
         else:
-            if kinds[h - 1] == "sym" and rng.random() < 0.5:
+            same = [i + 1 for i, k in enumerate(kinds) if k == kinds[h - 1] and i + 1 != h]
+            if same and rng.random() < 0.3:
+                g = rng.choice(same)
+                if rng.random() < 0.5:
+                    steps.append(dict(op="AssignCopy", args=[h, g]))
+                else:
+                    steps.append(dict(op="AssignMove", args=[h, g]))
+                    kinds[g - 1] = "none"
+            elif kinds[h - 1] == "sym" and rng.random() < 0.5:
                 steps.append(dict(op="Call", args=[h]))
             else:
                 steps.append(dict(op="Destroy", args=[h]))
